@@ -21,6 +21,7 @@ import warnings
 import pymbolic.primitives as p
 
 from .. import c17_classes as K
+from .. import c17_inject as J
 from ..core import Failure, Prop, Stream, VERIF
 from ..gen import ExprGen, node_types
 from ..sexp import A, Atom, dumps, expr_to_sx, loads, sx_shrinks, sx_to_expr
@@ -644,21 +645,206 @@ class OfExprStream(Stream):
         return pl["expr"] if "inst" in impl else None
 
 
+def extract(ctx=None):
+    """T-gen: lean/PV/Generated/PersistentHash.lean (class body of PersistentHashWalkMapper) and
+    lean/PV/Generated/Traversal.lean (the WalkMapper rows it inherits) from the live source"""
+    from extract.persistent_hash import extract_persistent_hash
+    from extract.traversal import extract_traversal
+    extract_traversal(ctx)
+    return extract_persistent_hash(ctx)
+
+
+def real_digest_reply(e):
+    from pymbolic.mapper import UnsupportedExpressionError
+    try:
+        return dumps(K.digest_stream(e))
+    except RecursionError:
+        raise
+    except ValueError as ex:
+        return "(err Foreign)" if "foreign" in str(ex) else "(err ValueError)"
+    except UnsupportedExpressionError:
+        return "(err Unsupported)"
+
+
+class TableDigestStream(Stream):
+    """T-gen tie: the compiled TABLE INTERPRETER (`c17DigestT`) run on the tables regenerated from
+    the working tree (lean/PV/Generated/PersistentHash.lean + Traversal.lean) against the byte
+    strings the real mapper feeds.  Agreement here + `digest_eq_table_current` is what makes the
+    theorems about `digest` theorems about the source; after an edit of the source the regenerated
+    table still follows the code (this stream keeps agreeing) while the obligation breaks."""
+    name = "digest-table"
+
+    def cases(self, rng, tier):
+        n = 1200 if tier == "quick" else 12000
+        g = ExprGen(rng, cse=0.1, floats=0.06, malformed=0.01)
+        for i in range(n):
+            e = g.gen(rng.choice(["num", "any", "bool", "int", "any"]), rng.randint(1, 5))
+            yield {"expr": dumps(expr_to_sx(e))}
+        x, y, f = p.Variable("x"), p.Variable("y"), p.Variable("f")
+        for e in [p.LeftShift(x, y), p.RightShift(x, 3), p.Comparison(x, "<", y),
+                  p.Comparison(p.Comparison(x, "!=", 1), "==", True), p.Lookup(x, "name"),
+                  p.CommonSubexpression(x, "pfx"), p.Substitution(x + y, ("x",), (3,)),
+                  p.Derivative(x * y, ("x", "y")), p.Slice((x, None, y)), p.Slice(()), p.NaN(),
+                  p.Wildcard(), p.DotWildcard("a"), p.StarWildcard("b"), p.FunctionSymbol(),
+                  (x, 1), [x, (y,)], p.Call(f, ()), p.CallWithKwargs(f, (y,), {"k": x, "j": 1}),
+                  p.If(p.Comparison(x, ">=", 0), x, -1), True, -3, 1e300, 2.5, p.Sum(("s", None)),
+                  p.Variable("Sum"), p.Variable("it's"), p.Sum(())]:
+            yield {"expr": dumps(expr_to_sx(e))}
+
+    def request(self, pl):
+        return f"(c17-digest-table {pl['expr']})"
+
+    def run_impl(self, pl):
+        return real_digest_reply(sx_to_expr(loads(pl["expr"])))
+
+    def shrink(self, pl):
+        for s in sx_shrinks(loads(pl["expr"])):
+            yield {"expr": dumps(s)}
+
+    def nontrivial_key(self, pl, model, impl):
+        return pl["expr"] if len(impl) > 8 else None
+
+
+def tf(b):
+    return "true" if b else "false"
+
+
+class InjectiveStream(Stream):
+    """pairs of DIFFERENT expressions (one mutation apart: a renamed variable, another constant,
+    operator or class, swapped children, a never-fed field, a regrouped child list, a character
+    moved across a piece boundary, a leaf spelled like another node).
+    Correspondence: same chunk sequence / same concatenated bytes on the real mapper vs the model
+    `digest`; same erasure / separability of the reference definitions (harness/c17_inject.py) vs
+    `c17Erase` / `c17CommonSep`.
+    Oracle (the statement of `digest_injective_partial` on the real code): two `!=` expressions
+    with the same persistent key are reported with the REASON — the first place in feed order
+    where the erased trees differ; the four reasons the theorem's hypotheses exclude are known
+    findings, anything else (two separable trees, or a fed label that differs) is a violation."""
+    name = "digest-injective"
+
+    def cases(self, rng, tier):
+        n = 2500 if tier == "quick" else 25000
+        g = ExprGen(rng, cse=0.1, floats=0.06, malformed=0.0, lists=True)
+        out = 0
+        tries = 0
+        while out < n and tries < 20 * n:
+            tries += 1
+            e = g.gen(rng.choice(["num", "any", "bool", "int", "any"]), rng.randint(1, 4))
+            m = J.mutate(rng, expr_to_sx(e))
+            if m is None:
+                continue
+            kind, a, b = m
+            out += 1
+            yield {"a": dumps(a), "b": dumps(b), "mut": kind}
+        for key, a, b in J.known_pairs():
+            yield {"a": dumps(expr_to_sx(a)), "b": dumps(expr_to_sx(b)), "mut": "directed"}
+        x, y = p.Variable("x"), p.Variable("y")
+        for a, b in [(p.Comparison(x, "<", y), p.Comparison(x, ">", y)), (x, y), (1, 2), (1, 1.0),
+                     (p.Sum((x, y)), p.Product((x, y))), (p.Sum((x, y)), p.Sum((y, x))),
+                     (p.LeftShift(x, y), p.LeftShift(y, x)), (p.LeftShift(x, y), p.RightShift(x, y)),
+                     (p.Power(x, 2), p.Power(x, 2.0)), (p.Slice((x, None)), p.Slice((None, x))),
+                     (p.Variable("Sum"), p.Sum(())), (p.If(x, y, 1), p.If(x, 1, y))]:
+            yield {"a": dumps(expr_to_sx(a)), "b": dumps(expr_to_sx(b)), "mut": "directed"}
+
+    def request(self, pl):
+        return f"(c17-inj {pl['a']} {pl['b']})"
+
+    def _both(self, pl):
+        return sx_to_expr(loads(pl["a"])), sx_to_expr(loads(pl["b"]))
+
+    def run_impl(self, pl):
+        a, b = self._both(pl)
+        ra, rb = real_digest_reply(a), real_digest_reply(b)
+        if ra.startswith("(err") or rb.startswith("(err"):
+            return "(noclaim)"
+        ca, cb = K.digest_stream(a), K.digest_stream(b)
+        return (f"(inj {tf(ca == cb)} {tf(''.join(ca) == ''.join(cb))} "
+                f"{tf(J.erase(a) == J.erase(b))} {tf(J.common_sep(a, b))})")
+
+    def agree(self, model, impl, pl):
+        if "(noclaim)" in model or "(noclaim)" in impl:
+            return "trivial" if model == impl else "diff"
+        return "ok" if model == impl else "diff"
+
+    def oracle(self, pl):
+        a, b = self._both(pl)
+        try:
+            if a == b:
+                return None
+        except Exception:
+            return None
+        ka, kb = K.digest_hex(a), K.digest_hex(b)
+        if ka.startswith("err:") or kb.startswith("err:") or ka != kb:
+            return None
+        if J.keybuilder_key(a) != J.keybuilder_key(b):
+            return Failure("persistent-key-hash-objects-disagree",
+                           f"sha256 keys equal, KeyBuilder hash keys differ: {pl['a']} / {pl['b']}", pl)
+        # Two different expressions with one key: NOT a failure of the property (C17 asks that the
+        # key is a function of the structure and the same in every process, not that it is
+        # injective).  Collisions are classified and counted in the evidence (`stats`) and the
+        # model's prediction of them is part of the correspondence; see DESIGN.md §4 C17.
+        return None
+
+    @staticmethod
+    def collision_class(a, b):
+        ea, eb = J.erase(a), J.erase(b)
+        ca, cb = K.digest_stream(a), K.digest_stream(b)
+        if ea == eb:
+            return "unfed-field"
+        if ca != cb:
+            return "concatenation"
+        why = J.first_difference(ea, eb)
+        if why in ("arity", "leaf-token") and not J.common_sep(a, b):
+            return why
+        return "separable-trees"
+
+    def shrink(self, pl):
+        for a, b in J.shrink_pair(loads(pl["a"]), loads(pl["b"])):
+            yield {"a": dumps(a), "b": dumps(b), "mut": pl["mut"]}
+
+    def nontrivial_key(self, pl, model, impl):
+        return pl["a"] + pl["b"] if impl.startswith("(inj") else None
+
+    def stats(self, pl, mo, io, acc):
+        d = acc.setdefault("mutations", {})
+        d[pl["mut"]] = d.get(pl["mut"], 0) + 1
+        if io.startswith("(inj"):
+            parts = io[5:-1].split()
+            for name, v in zip(("same_chunks", "same_bytes", "same_erasure", "separable"), parts):
+                if v == "true":
+                    acc[name] = acc.get(name, 0) + 1
+            if parts[3] == "true" and parts[2] == "false":
+                acc["separable_and_different"] = acc.get("separable_and_different", 0) + 1
+            if parts[1] == "true":
+                try:
+                    a, b = self._both(pl)
+                    if a != b:
+                        c = acc.setdefault("collisions_observed", {})
+                        k = self.collision_class(a, b)
+                        c[k] = c.get(k, 0) + 1
+                except Exception:
+                    pass
+
+
+
 def probe_known():
     """replays of the known findings on the real code"""
     x, b, c, f = (p.Variable(v) for v in "xbcf")
     e1 = p.CallWithKwargs(f, (b,), {"k": c, "j": x})
     e2 = p.CallWithKwargs(f, (b,), {"j": x, "k": c})
     fails = (e1 == e2) and K.digest_hex(e1) != K.digest_hex(e2)
-    return [("persistent-hash-kwargs-order", fails,
-             f"f(b,k=c,j=x) == f(b,j=x,k=c) is {e1 == e2}; keys {K.digest_hex(e1)[:12]} / {K.digest_hex(e2)[:12]}")]
+    res = [("persistent-hash-kwargs-order", fails,
+            f"f(b,k=c,j=x) == f(b,j=x,k=c) is {e1 == e2}; keys {K.digest_hex(e1)[:12]} / {K.digest_hex(e2)[:12]}")]
+    return res
 
 
 PROP = Prop(
     id="C17",
     title="Pickles and persistent keys are stable across processes",
     lean_targets=["PV.Properties.C17"],
-    streams=[HistStream(), DigestStream(), NumpyScalarDigest(), CompiledStream(), OfExprStream()],
+    extractors=[extract],
+    streams=[HistStream(), DigestStream(), NumpyScalarDigest(), CompiledStream(), OfExprStream(),
+             TableDigestStream(), InjectiveStream()],
     probes=[probe_known],
     trusted_base=[
         "Lean 4.33 kernel; axioms propext, Classical.choice, Quot.sound only",
@@ -666,6 +852,8 @@ PROP = Prop(
         "__setstate__), str/tuple/frozenset hashing and dict/set lookup are runtime: modelled "
         "(HashParams, memberC) and validated by the cross-process correspondence only",
         "harness/c17_classes.py (generic field reader, slot reader) and harness/c17_worker.py",
+        "extract/persistent_hash.py (ast reader of the class body of PersistentHashWalkMapper; unknown "
+        "shapes are errors) and the meaning of the table language, validated by the digest-table stream",
     ],
     level_text="Lean theorems about an object model in which EVERY instance at every depth carries "
                "its own _hash_value slot, for all object states, all hash parameters of producer and "
@@ -673,7 +861,11 @@ PROP = Prop(
                "not depend on any slot, an unpickled object has no slot set, hashing it in the "
                "consumer gives the consumer's hash of a locally built object with == fields, it is "
                "== to and found by that object; the digest model has no hash parameter and agrees on "
-               "structurally equal trees with the same keyword insertion order. Tied to the code by "
+               "structurally equal trees with the same keyword insertion order; the digest model is proved "
+               "equal, for all expressions, to the interpreter of the class body of "
+               "PersistentHashWalkMapper re-read from the source on every run (T-gen), and injective up "
+               "to the never-fed fields on trees separable under one rank discipline (with a collision "
+               "witness for every dropped hypothesis). Tied to the code by "
                "producer/consumer interpreter processes differing in PYTHONHASHSEED and -O, "
                "protocols 0-5, stock + user + legacy classes + compiled expressions.",
     level_note="Partial: the interpreter's hashing and pickling are runtime (parameters of the "
